@@ -1,5 +1,7 @@
 package hx
 
+import "fmt"
+
 // EmitPattern is the deterministic output pattern of the emit helper (kept in sync with
 // cmd/emit/main.go).
 func EmitPattern(n int, newlines bool) []byte {
@@ -24,6 +26,15 @@ func EmitPatternCR(n int) []byte {
 		case i%61 == 60 && (i/61)%2 == 0:
 			b[i] = '\n'
 		}
+	}
+	return b
+}
+
+// EmitLines is what emit's ol:/el: operations write.
+func EmitLines(n int) []byte {
+	var b []byte
+	for i := 0; i < n; i++ {
+		b = append(b, []byte(fmt.Sprintf("line %d of the log\n", i))...)
 	}
 	return b
 }
